@@ -1085,20 +1085,69 @@ class EntryV:
         self.key = key
 
 
-@intr("BTreeMap::entry", "BTreeMap::<K, V>::entry")
+@intr("BTreeMap::entry", "BTreeMap::<K, V>::entry", "HashMap::entry")
 def _btreemap_entry(ex, args, f):
-    return EntryV(deref_all(ex, args[0]), args[1])
+    m = deref_all(ex, args[0])
+    ent = EntryV(m, args[1])
+    # the enum the caller may match on: Entry::Vacant(VacantEntry) / Entry::Occupied(OccupiedEntry)
+    return Adt("Entry", "Vacant" if _find_key(ex, m, args[1]) is None else "Occupied", [ent])
+
+
+class SlotCell:
+    """a cell that IS the i-th value of a map model: writes through a reference obtained from the map reach the map"""
+    __slots__ = ("m", "i")
+
+    def __init__(self, m, i):
+        self.m = m
+        self.i = i
+
+    @property
+    def v(self):
+        return self.m.vals[self.i]
+
+    @v.setter
+    def v(self, val):
+        self.m.vals[self.i] = val
+
+
+def _entry_of(ex, v):
+    v = deref_all(ex, v)
+    return v.fields[0] if isinstance(v, Adt) and v.ty == "Entry" else v
+
+
+@intr("VacantEntry::insert", "std::collections::btree_map::VacantEntry::insert", "VacantEntry::<'a, K, V>::insert")
+def _vacant_insert(ex, args, f):
+    e = _entry_of(ex, args[0])
+    e.m.keys.append(e.key)
+    e.m.vals.append(args[1])
+    return Ref(SlotCell(e.m, len(e.m.vals) - 1))
+
+
+@intr("OccupiedEntry::get_mut", "OccupiedEntry::get", "OccupiedEntry::into_mut", "std::collections::btree_map::OccupiedEntry::get_mut",
+      "std::collections::btree_map::OccupiedEntry::get", "std::collections::btree_map::OccupiedEntry::into_mut")
+def _occupied_get(ex, args, f):
+    e = _entry_of(ex, args[0])
+    return Ref(SlotCell(e.m, _find_key(ex, e.m, e.key)))
+
+
+@intr("OccupiedEntry::insert", "std::collections::btree_map::OccupiedEntry::insert")
+def _occupied_insert(ex, args, f):
+    e = _entry_of(ex, args[0])
+    i = _find_key(ex, e.m, e.key)
+    old = e.m.vals[i]
+    e.m.vals[i] = args[1]
+    return old
 
 
 @intr("std::collections::btree_map::Entry::or_insert", "Entry::or_insert")
 def _entry_or_insert(ex, args, f):
-    e = deref_all(ex, args[0])
+    e = _entry_of(ex, args[0])
     i = _find_key(ex, e.m, e.key)
     if i is None:
         e.m.keys.append(e.key)
         e.m.vals.append(args[1])
         i = len(e.m.keys) - 1
-    return Ref(Cell(e.m.vals[i]))
+    return Ref(SlotCell(e.m, i))
 
 
 @intr("BTreeMap::insert", "BTreeMap::<K, V>::insert")
@@ -2516,3 +2565,33 @@ def _opt_as_deref(ex, args, f):
 @intr("GenericArray::as_slice", "GenericArray::<T, N>::as_slice")
 def _ga_as_slice(ex, args, f):
     return I["Vec::as_slice"](ex, args, f)
+
+
+@intr("Vec::dedup_by", "Vec::<T>::dedup_by", "Vec::dedup_by_key", "Vec::dedup")
+def _vec_dedup_by(ex, args, f):
+    """std semantics: walk the vector, drop an element when same_bucket(&mut it, &mut previous kept element) answers true"""
+    v = deref_all(ex, args[0])
+    if "dedup_by_key" in f or len(args) < 2:
+        raise Unsupported("Vec::dedup / dedup_by_key")
+    clo = deref_all(ex, args[1])
+    kept = []
+    for it in v.items:
+        if kept:
+            r = ex.call_closure(clo, [Ref(Cell(it)), Ref(Cell(kept[-1]))])
+            c = r.e if hasattr(r, "e") else r
+            if ex.decide(c if z3.is_bool(c) else c != 0):
+                continue
+        kept.append(it)
+    v.items[:] = kept
+    return UNIT
+
+
+@intr("Vec::remove", "Vec::<T>::remove")
+def _vec_remove(ex, args, f):
+    v = deref_all(ex, args[0])
+    idx = deref_all(ex, args[1])
+    n = len(v.items)
+    if ex.decide(z3.UGE(idx.e, n)):
+        raise PathEnd("panic", "Vec::remove: index out of bounds")
+    i = pick(ex, idx, n)
+    return v.items.pop(i)
